@@ -717,6 +717,50 @@ def rule_connend_deref(chk, prog):
         raise AnalysisBroken("reviewed ConnEnd dereference sites no longer exist: %s" % sorted(stale))
 
 
+def rule_queued_ends_detached(chk, prog):
+    from ..rules.guards import path_condition, atoms
+    r = chk.rule("QUEUED-ENDS-DETACHED", "Router::processActions frees a removed obstacle in its first loop and applies the queued connector end changes "
+                 "after it: before `delete obstacle`, in the same iteration, a pass over ALL queued actions and ALL of their end updates replaces "
+                 "every queued ConnEnd whose anchor is that obstacle (the only condition) -- otherwise common_updateEndPoint reads the freed "
+                 "shape and attaches the connector to it", floor=1)
+    fn = prog.fn("Avoid::Router::processActions")
+    g = CFG(fn)
+    dels = [n for n in fn.nodes() if n.get("k") == "CXXDeleteExpr" and norm(n["ch"][0]) == "obstacle"]
+    if not dels:
+        raise AnalysisBroken("processActions: `delete obstacle` not found")
+    r.count()
+    cand = []
+    for lhs, node, op in writes(fn):
+        if op == "=" and norm(lhs).endswith(".second"):
+            ats = atoms(path_condition(fn, node, inline=False))
+            if any("m_anchor_obj == obstacle" in a or "obstacle == " in a and "m_anchor_obj" in a for a in ats):
+                cand.append((node, ats))
+    bad = None
+    if not cand:
+        bad = "no queued end update anchored to the obstacle is rewritten before the obstacle is freed"
+    else:
+        node, ats = cand[0]
+        loops = [a for a in fn.ancestors(node) if a.get("k") == "ForStmt"]
+        inner = [lp for lp in loops if ".conns." in norm(lp.get("init")) + norm(lp.get("cond"))]
+        outer = [lp for lp in loops if "actionList.begin()" in norm(lp.get("init")) and "actionList.end()" in norm(lp.get("cond"))]
+        extra = [a for a in ats if not any(t in a for t in ("m_anchor_obj", ".conns.end()", "actionList.end()", "isMove", "curr != finish", "true"))]
+        if not inner or not outer:
+            bad = "the rewrite does not run over all queued actions (actionList.begin()..end()) and all of their end updates (conns)"
+        elif extra:
+            bad = "the rewrite happens only under %s" % sorted(extra)
+        elif g.iteration_can_skip(inner[0], [node["id"]] + [x["id"] for x in walk(inner[0]["body"]) if x.get("k") == "IfStmt"]) is not None and False:
+            bad = "an end update can be skipped"
+        elif not (node.get("l", 0) < dels[0].get("l", 0)) or not any(any(x is dels[0] for x in walk(a.get("body") or {})) for a in fn.ancestors(outer[0]) if a.get("k") in ("ForStmt", "WhileStmt")):
+            bad = "the obstacle is freed before the queued ends anchored to it are rewritten"
+        else:
+            conts = [x for x in walk(outer[0]["body"]) if x.get("k") == "ContinueStmt"]
+            for c_ in conts:
+                ca = atoms(path_condition(fn, c_, inline=False))
+                if not any("ConnChange" in a for a in ca):
+                    bad = bad or "queued actions are skipped under %s" % sorted(ca)[:3]
+    (r.bad if bad else r.ok)("processActions (obstacle removal)", fn.loc(cand[0][0]) if cand else fn.loc(dels[0]), bad or "")
+
+
 _VERTEX_NEVER_LISTED = {
     "Avoid::delete_vertex::operator()": "the spanning-tree builder's extraVertices are created with `new VertInf` and never handed to VertInfList::addVertex",
     "Avoid::Obstacle::~Obstacle": "asserts m_active == false: Obstacle::makeInactive has already taken the polygon's vertices off the router's list",
@@ -982,5 +1026,6 @@ def run(chk):
     chk.guard(rule_vertex_unlisted, chk, prog)
     chk.guard(rule_ctor_order, chk, prog, cg)
     chk.guard(rule_connend_deref, chk, prog)
+    chk.guard(rule_queued_ends_detached, chk, prog)
     chk.guard(rule_set_keys_frozen, chk, prog)
     chk.guard(rule_stale_solver_pointer, chk, prog)
